@@ -1,7 +1,17 @@
 import logging
 import re
 from io import BytesIO
-from typing import Dict, List, Mapping, Optional, Sequence, Tuple, Union, cast
+from typing import (
+    Dict,
+    FrozenSet,
+    List,
+    Mapping,
+    Optional,
+    Sequence,
+    Tuple,
+    Union,
+    cast,
+)
 
 from pdfminer import settings
 from pdfminer.casting import (
@@ -374,9 +384,13 @@ class PDFPageInterpreter:
     def __init__(self, rsrcmgr: PDFResourceManager, device: PDFDevice) -> None:
         self.rsrcmgr = rsrcmgr
         self.device = device
+        # form XObjects that are being rendered right now (see do_Do)
+        self.active_forms: FrozenSet[int] = frozenset()
 
     def dup(self) -> "PDFPageInterpreter":
-        return self.__class__(self.rsrcmgr, self.device)
+        interpreter = self.__class__(self.rsrcmgr, self.device)
+        interpreter.active_forms = self.active_forms
+        return interpreter
 
     def init_resources(self, resources: Dict[object, object]) -> None:
         """Prepare the fonts and XObjects listed in the Resource attribute."""
@@ -1195,7 +1209,12 @@ class PDFPageInterpreter:
         log.debug("Processing xobj: %r", xobj)
         subtype = xobj.get("Subtype")
         if subtype is LITERAL_FORM and "BBox" in xobj:
+            form_id = xobj.objid if xobj.objid is not None else id(xobj)
+            if form_id in self.active_forms:
+                log.warning("Ignoring form XObject %r that invokes itself", xobjid)
+                return
             interpreter = self.dup()
+            interpreter.active_forms = self.active_forms | {form_id}
             bbox = safe_rect_list([resolve1(v) for v in list_value(xobj["BBox"])])
             matrix_values = [
                 resolve1(v) for v in list_value(xobj.get("Matrix", MATRIX_IDENTITY))
